@@ -10,6 +10,8 @@
    counters, and the number k of calls (induction on k). *)
 From Coq Require Import List Arith Bool NArith.
 From PV Require Import Model.Registry Proofs.RegistryFacts Proofs.RegistryProofs Proofs.RegistryNestProofs.
+From PV Require Import Model.RegistryConc Proofs.RegistryConcProofs Model.RegisterHelpers Proofs.RegisterHelpersProofs.
+From Coq Require Import String.
 Import ListNotations.
 
 (* Every constructor call receives, and every product is built from, a config that was made
@@ -152,3 +154,88 @@ Example C18_spec_rejects_foreign_config :
           (OOk (mkProd 1 (AConf (mkConf 1 (mkV 101 301 401))) None))) = false.
 Proof. vm_compute. reflexivity. Qed.
 
+
+(* ---- concurrent products (Model/RegistryConc.v) ---- *)
+
+(* Creations of the same registered plugin constructor running AT THE SAME TIME (Registry.New from
+   several goroutines; calls of one factory made from a plugin constructor, as the engine calls the
+   gun factory from one goroutine per instance): each creation cut into its atomic steps - default
+   function invoked, fresh config allocated and initialised, decoder made for that config, decoder
+   overlays the settings of the creation's own section, constructor called.  For EVERY schedule
+   (any interleaving of any number of creations, finished or not), every start value of the shared
+   counters and heap: every finished creation built its product from the value of ITS default
+   invocation overlaid by ITS settings, no default value and no config is shared by two products. *)
+Theorem C18_concurrent_products : forall sh o d m sched G0 T0,
+  is_nocfg (sh_cfg sh) = false ->
+  (forall t, ct_pc (T0 t) = PcDefault) ->
+  conc_b sh o d (observe_conc d m (snd (run_sched sh o d sched G0 T0))) = true.
+Proof. exact conc_holds. Qed.
+Print Assumptions C18_concurrent_products.
+
+(* functional reading *)
+Theorem C18_concurrent_product_config : forall sh o d sched G0 T0 t,
+  (forall x, ct_pc (T0 x) = PcDefault) ->
+  let T := snd (run_sched sh o d sched G0 T0) in
+  ct_pc (T t) = PcDone -> td_trial (d t) = false ->
+  ct_arg (T t) = mk_arg (sh_cfg sh) (ct_tgt (T t)) (td_fill (d t) (base_of sh o (ct_def (T t)))).
+Proof. exact conc_product_arg. Qed.
+Print Assumptions C18_concurrent_product_config.
+
+(* two creations with different settings, steps interleaved one by one: each gets its own *)
+Example C18_concurrent_example :
+  observe_conc (fun t => mkTD (fun v => mkV (va v) (1000 + N.of_nat t) (vc v)) false) 2
+    (snd (run_sched (mkShape RPlugin CPtr true false DefVal TImpl false) (ex_oracle (fun _ => false) (fun _ => false))
+                    (fun t => mkTD (fun v => mkV (va v) (1000 + N.of_nat t) (vc v)) false)
+                    [1; 0; 0; 1; 1; 0; 1; 0; 0; 1] cstate0 (fun _ => thread0))) =
+  [ mkCR 0 (Some 1) (AConf (mkConf 0 (mkV 101 1000 0))); mkCR 1 (Some 0) (AConf (mkConf 1 (mkV 100 1001 0))) ].
+Proof. vm_compute. reflexivity. Qed.
+
+(* a product built from the bare default (its section's settings written into another creation's
+   config), and two products sharing one config, are rejected *)
+Example C18_conc_rejects_lost_settings :
+  conc_b (mkShape RPlugin CPtr true false DefVal TImpl false) (ex_oracle (fun _ => false) (fun _ => false))
+         (fun t => mkTD (fun v => mkV (va v) 7 (vc v)) false)
+         [ mkCR 0 (Some 0) (AConf (mkConf 0 (mkV 100 200 0))); mkCR 1 (Some 1) (AConf (mkConf 1 (mkV 101 7 0))) ] = false.
+Proof. vm_compute. reflexivity. Qed.
+Example C18_conc_rejects_shared_config :
+  conc_b (mkShape RPlugin CPtr true false DefNone TImpl false) (ex_oracle (fun _ => false) (fun _ => false))
+         (fun t => mkTD (fun v => mkV (va v) 7 (vc v)) false)
+         [ mkCR 0 None (AConf (mkConf 0 (mkV 0 7 0))); mkCR 1 None (AConf (mkConf 0 (mkV 0 7 0))) ] = false.
+Proof. vm_compute. reflexivity. Qed.
+
+(* ---- the registration helpers of core/register (Model/RegisterHelpers.v) ---- *)
+
+(* register.Provider / Limiter / Gun / Aggregator / DataSource / DataSink -> RegisterPtr ->
+   plugin.Register: for every name, constructor and default-config functions given, plugin.Register
+   receives the kind's plugin type and exactly that name, constructor and default-config functions. *)
+Theorem C18_register_helpers : forall hk n c defs,
+  In hk kind_helpers ->
+  register_via hk register_ptr_helper n c defs = Some (mkReq (rh_iface hk) n c defs).
+Proof. exact helpers_forward. Qed.
+Print Assumptions C18_register_helpers.
+
+(* hence a constructor of shape [sh] registered through a helper yields components (New) and
+   factory products configured with the default registered WITH it overlaid by the fill *)
+Theorem C18_helper_new_config : forall hk sh sh' hf o s s1 ev p,
+  In hk kind_helpers -> shape_via hk register_ptr_helper sh = Some sh' ->
+  reg_new sh' hf o s = (s1, ev, OOk p) -> p_arg p = expected_arg sh hf o s.
+Proof. exact helper_new_config. Qed.
+Print Assumptions C18_helper_new_config.
+
+Theorem C18_helper_factory_config : forall hk sh sh' we named hf o s0 s1 cev f s s2 ev p,
+  In hk kind_helpers -> shape_via hk register_ptr_helper sh = Some sh' ->
+  sh_ret sh = RPlugin ->
+  reg_new_factory sh' we named hf o s0 = (s1, cev, CrOk f) ->
+  call_factory sh' we hf o s f = (s2, ev, OOk p) ->
+  p_arg p = expected_arg sh hf o s.
+Proof. exact helper_factory_config. Qed.
+Print Assumptions C18_helper_factory_config.
+
+(* a helper that does not hand the default-config function on is told apart: the registry would
+   see a constructor without default *)
+Example C18_helper_dropping_default_rejected :
+  let bad := mkHelper "DataSink" "DataSink" 3 true "RegisterPtr" [HPtr; HParam 0; HParam 1] in
+  helper_forwards register_ptr_helper bad = false /\
+  shape_via bad register_ptr_helper (mkShape RPlugin CPtr true false DefVal TImpl false) =
+    Some (mkShape RPlugin CPtr true false DefNone TImpl false).
+Proof. vm_compute. split; reflexivity. Qed.
